@@ -42,6 +42,12 @@ def ns_scenario(seed, n, profile="swarm"):
         kwargs["analytic_priors"] = True
     elif mk < 0.30:
         model = {"name": "gauss_scalar", "dims": 2}
+    elif mk < 0.42:
+        model = {"name": "gauss_constrained", "dims": dims}
+    elif mk < 0.52:
+        model = {"name": "gauss_quantised", "dims": 2}
+    elif mk < 0.62:
+        model = {"name": "gauss_sloppy_prior", "dims": dims}
     nlive = r.choice([10, 15, 20, 30, 40, 60])
     kwargs.update(nlive=nlive, seed=R.seed32(seed, "run-seed", n), plot=False,
                   stopping=r.choice([0.1, 0.5, 1.0, 0.05]))
@@ -78,7 +84,9 @@ def ns_scenario(seed, n, profile="swarm"):
     kwargs["poolsize"] = r.choice([nlive, 2 * nlive, max(5, nlive // 2)])
     if r.random() < 0.3:
         kwargs["drawsize"] = r.choice([kwargs["poolsize"], 4 * kwargs["poolsize"], 16])
-    if r.random() < 0.2:
+    if r.random() < 0.2 and kwargs.get("constant_volume_mode", True):
+        # (with a data-dependent radius and tiny flows this mode routinely runs to its 1e6-draw cap: minutes of
+        # wall time in numpy concatenations for few nessai steps; covered by C20, not worth it in every swarm)
         kwargs["accumulate_weights"] = True
     if r.random() < 0.15:
         kwargs["truncate_log_q"] = True
